@@ -40,6 +40,13 @@ package bttest
 //@ typeinv nonnil table.rows
 
 // ---------------------------------------------------------------------------------------------
+// Lock discipline: which lock protects which state (every access becomes a "guard" obligation)
+// ---------------------------------------------------------------------------------------------
+
+//@ guarded_by server.tables server.mu
+//@ guarded_by table.rows table.mu read=Get,Ascend,AscendRange,AscendLessThan,AscendGreaterOrEqual write=ReplaceOrInsert,Delete,Clear,Close
+
+// ---------------------------------------------------------------------------------------------
 // Row structure predicates
 // ---------------------------------------------------------------------------------------------
 
